@@ -75,14 +75,21 @@ pub fn run_threads(seed: u64, tier: &str, out: &mut Out) {
         let handles: Vec<_> = plans.iter().map(|&(i, d)| { let b = pb.clone(); let bf = bad_fraction.clone(); std::thread::spawn(move || {
             for k in 0..per { b.inc(i); if d > 0 { b.dec(d); } if k % 4096 == 0 { let mut f = -1.0f32; b.update(|s| f = s.fraction()); if !(0.0..=1.0).contains(&f) { bf.store(true, std::sync::atomic::Ordering::Relaxed); } } }
         }) }).collect();
+        // a bystander thread that, meanwhile, keeps making calls which by the property have no influence on the position
+        // (reset_eta / reset_elapsed / tick / message / length calls): an update lost to one of them is a lost update all the same
+        let stop = std::sync::Arc::new(std::sync::atomic::AtomicBool::new(false));
+        let bystander = if round % 2 == 1 { let b = pb.clone(); let st = stop.clone(); Some(std::thread::spawn(move || { let mut k = 0u64;
+            while !st.load(std::sync::atomic::Ordering::Relaxed) { match k % 6 { 0 => b.reset_eta(), 1 => b.reset_elapsed(), 2 => b.tick(), 3 => b.set_message("m"), 4 => b.inc_length(1), _ => b.dec_length(1) } k += 1; } })) } else { None };
         let panicked = handles.into_iter().map(|h| h.join()).filter(|r| r.is_err()).count();
+        stop.store(true, std::sync::atomic::Ordering::Relaxed);
+        let panicked = panicked + bystander.map_or(0, |h| h.join().is_err() as usize);
         let mut want = start;
         for &(i, d) in &plans { want = want.wrapping_add(i.wrapping_mul(per)).wrapping_sub(d.wrapping_mul(per)); }
         let got = pb.position();
         let verdict = if panicked > 0 { format!("FAIL panic-under-concurrency {panicked} of {nthreads} threads panicked in inc/dec") } else if got != want { format!("FAIL lost-updates {nthreads} threads x {per} calls: position {got}, expected {want} (start {start})") }
             else if bad_fraction.load(std::sync::atomic::Ordering::Relaxed) { "FAIL fraction-out-of-range during concurrent updates".to_string() } else { "ok".into() };
         std::mem::forget(pb);
-        out.emit(&format!("NOMODEL THREADS n={nthreads} per={per} start={start} len={len:?} hidden={hidden} plans={plans:?}"), &format!(" ORACLE {verdict}"));
+        out.emit(&format!("NOMODEL THREADS n={nthreads} per={per} start={start} len={len:?} hidden={hidden} bystander={} plans={plans:?}", round % 2 == 1), &format!(" ORACLE {verdict}"));
     }
     indicatif::verif_hooks::set_auto_advance_ns(0); indicatif::verif_hooks::set_stall_every(0);
 }
